@@ -330,8 +330,10 @@ def check_relational(scn, tol=TOL):
                 cb = B[k].reshape(B[k].shape[0], n, d, n, d)
                 cd = D[k].reshape(D[k].shape[0], n, d, n, d)
                 for a in range(d):
+                    if not (sb[-1, a] > 0 and sd[-1, 0] > 0):
+                        continue
                     e = _rel(cb[:, :, a, :, a] / sb[-1, a], cd[:, :, a, :, a] / sd[-1, 0])
-                    if not e <= tol and sb[-1, a] > 0 and sd[-1, 0] > 0:
+                    if not e <= tol:
                         bad.append((f"ts0:bd.cov/s_a^2==dense.cov/s^2:{k}", f"relerr={e:.3e}"))
     elif kind == "decoupled":  # TS1: block-diagonal == independent scalar dense solves
         B = run("bd", "ts1_blockdiag")
